@@ -128,7 +128,7 @@ def check_hx(pid, tier, seed):
         for sc in scenarios:
             sc["props"] = leg["props"]
             limit = None if tier == "quick" else int(os.environ.get("VERIF_LEG_SECONDS", "1500"))
-            r = hxrun.run_leg(binary, sc, config, dfs_check_depth=(0 if san else 3 if tier == "quick" else 4), max_seconds=limit, env_extra=env_extra)
+            r = hxrun.run_leg(binary, sc, config, dfs_check_depth=(0 if san else (2 if tier == "quick" else 3) if "C03" in (leg["props"] or []) else 3 if tier == "quick" else 4), max_seconds=limit, env_extra=env_extra)
             st = r["stats"]
             agg["states"] += st["unique_states"]
             agg["generated"] += st["generated_states"]
